@@ -51,7 +51,10 @@ def run_tlc(module: str, cfg: Path, meta: Path, env: dict | None = None, workers
     e = dict(os.environ)
     if env:
         e.update({k: str(v) for k, v in env.items()})
-    cmd = ["java", "-XX:+UseParallelGC", f"-Xmx{heap}", "-Xss64m", f"-DTLA-Library={SPEC}"]
+    # TLC's scratch directories go where the run's other files go (removed with them), not to /tmp
+    jtmp = Path(cfg).parent / "jtmp"
+    jtmp.mkdir(parents=True, exist_ok=True)
+    cmd = ["java", "-XX:+UseParallelGC", f"-Xmx{heap}", "-Xss64m", f"-DTLA-Library={SPEC}", f"-Djava.io.tmpdir={jtmp}"]
     if deque:
         cmd.append("-Dtlc2.tool.queue.IStateQueue=StateDeque")
     cmd += ["-cp", JAR, "tlc2.TLC", "-workers", str(workers), "-metadir", str(meta),
